@@ -47,7 +47,7 @@ def cases(tier, seed):
     # integer types show only here); terms sit on the last atoms, next to the ones the fragment is attached to
     for j in range(6 if tier == "quick" else 60):
         out.append({"kind": "large", "ns": int([100200, 131100, 200300, 262200, 100007, 310000][j % 6] + rng.integers(0, 50)), "no": int(rng.integers(4, 7)),
-                    "mode": ["default", "repeat", "shared"][j % 3], "s": int(rng.integers(1 << 30)), "mapped": j % 4 != 3, "many": j % 2 == 1})
+                    "mode": ["default", "repeat", "shared"][j % 3], "s": int(rng.integers(1 << 30)), "mapped": j % 4 != 3 or j % 2 == 1, "many": j % 2 == 1})
     return out
 
 
